@@ -105,9 +105,12 @@ CLAIMED["C12"] = dict(
          ":from the suffix from it; the manifest is the history of group-file fingerprints with adjacent repeats collapsed; identity "
          "precedence. Tie: suite `paths` runs histories of add / identical re-add / replace / remove / new instance on two groups "
          "against the real PathsManager, comparing get_named_paths, six selection forms per member, manifest vs SHA-256 of the "
-         "group file, and the model's group text, read-back, identities and selections.",
+         "group file, and the model's group text, read-back, identities and selections. Source tie (T): `PathsManager._get_to`, `_get_from` and "
+         "`_find_one` — with their loops over the (identity, csvpath) pairs — are translated from /repo's working tree on every run and proved to compute "
+         "the model's getTo/getFrom/findOne for every group and identity (Props/SelectTie; c12_select_source states the selection clause of the "
+         "translated source).",
     note="Identities come from the metadata model (C15) with Python's character classes supplied per character; SHA-256 is outside the model.",
-    technique="Lean 4 proof (string split/join round trip, list lemmas) + correspondence over operation histories",
+    technique="Lean 4 proof (string split/join round trip, list lemmas) + source translator with bridging theorems (_get_to, _get_from, _find_one incl. their loops) + correspondence over operation histories",
     design="6/C12",
 )
 
